@@ -13,7 +13,8 @@ L1: NfcVerif.Props.C01Hist - for every well-formed layout, every history whose f
     final message: the final assignment succeeds and a fresh reader sees exactly it (Type 1/2 with the
     write-back cache of the memory reader inside the model, Type 3, Type 4); for `late` faults the Type 3
     and Type 4 statements hold as well, the Type 1/2 statement does not (counter-example theorem = open
-    finding t12-empty-after-unacknowledged-length-write).
+    finding t12-empty-after-unacknowledged-length-write); with the repair of that finding (model variant
+    syncUnitsR, chosen when the tree under test has it) it holds for every history.
 L2: the real code and the model `NfcVerif.Hist` (driver drv_c01) on the same histories: outcome and ordered
     commands of every attempt, what a fresh reader sees at the end.
 L3: on the real code alone: a faulted attempt ends in TagCommandError, the final attempt succeeds and
@@ -21,7 +22,7 @@ L3: on the real code alone: a faulted attempt ends in TagCommandError, the final
 """
 from common import Model
 from sims import t34_lib as T
-from sims.c01_hist import History, MODES
+from sims.c01_hist import History, MODES, probe_unconfirmed_repair
 
 LEAN_TARGETS = ["NfcVerif.Props.C01Hist", "drv_c01"]
 
@@ -30,6 +31,8 @@ THEOREMS = [
     "NfcVerif.C01Hist.t12_cache_coherent",
     "NfcVerif.C01Hist.t12_history_roundtrip",
     "NfcVerif.C01Hist.t12_unacknowledged_counterexample",
+    "NfcVerif.C01Hist.t12_repaired_attempt_clean",
+    "NfcVerif.C01Hist.t12_history_roundtrip_repaired",
     "NfcVerif.C01Hist.t3_attempt_clean",
     "NfcVerif.C01Hist.t3_history_roundtrip",
     "NfcVerif.C01Hist.t4_attempt_clean",
@@ -154,6 +157,8 @@ def run_part(ck):
         ck.leanchecker(["NfcVerif.Props.C01Hist"])
     model = Model("drv_c01")
     var = T.probe_variant()
+    rep = probe_unconfirmed_repair()
+    ck.notes.append("hist: tree under test resends the unit of an unacknowledged write = %s" % rep)
     limit = 60 if ck.thorough else 16
     hs = []
 
@@ -164,13 +169,36 @@ def run_part(ck):
         judge(ck, h, cap)
 
     for kind, lay in layouts(ck):
+        try:
+            explore(ck, kind, lay, add, limit)
+        except Exception as e:  # noqa  nfcpy returned / raised something the oracle code did not foresee
+            from common import exc_name
+            import traceback
+            ck.fail("hist-unexpected-behaviour", "%s: exploring histories on this layout ended with %s: %s"
+                    % (kind, exc_name(e), traceback.format_exc().strip().split("\n")[-3:]),
+                    {"kind": kind, "layout": (lay.descr() if hasattr(lay, "descr") else {"memory": bytes(lay["mem"]).hex()})})
+
+    replies = model.ask_many([h.request(var, rep) for h in hs])
+    dis = 0
+    for h, rep in zip(hs, replies):
+        if rep != h.line:
+            dis += 1
+            ck.fail("tie:hist-model-vs-nfcpy", "%s: model %r, implementation %r" % (h.kind, rep[-300:], h.line[-300:]),
+                    dict(h.replay(), request=h.request(var, rep)[:3000], model=rep[:3000], impl=h.line[:3000]))
+    ck.tie("Hist model vs nfcpy: assignments through one tag object with faults (outcome + commands of every attempt, "
+           "fresh reader at the end)", cases=len(hs), disagreements=dis, exhaustive=False)
+
+
+def explore(ck, kind, lay, add, limit):
+    rng = ck.rng
+    if True:
         probe = History(kind, lay, [(b"", None)])
         if probe.obj.nd is None:
             ck.fail("hist-wellformed-layout-not-ndef", "%s: activation finds no NDEF: %s" % (kind, probe.line[:60]), probe.replay())
-            continue
+            return
         cap, old = probe.obj.cap, probe.obj.old
         if cap < 1:
-            continue
+            return
         lens = sorted(set(n for n in [rng.randrange(1, 9), min(cap, rng.choice([17, 40, 47])), 254, 255, cap] if 1 <= n <= cap))
         if not ck.thorough and len(lens) > 3:
             lens = sorted(set([lens[0], rng.choice(lens[1:-1]), lens[-1]]))
@@ -204,13 +232,3 @@ def run_part(ck):
                     d = rng.choice(variants(rng, d1, old, min(cap, 600), rng.randrange(9)))
                 atts.append((d, None))
                 add(History(kind, lay, atts), cap, "%s:%d-faults" % (kind, nf))
-
-    replies = model.ask_many([h.request(var) for h in hs])
-    dis = 0
-    for h, rep in zip(hs, replies):
-        if rep != h.line:
-            dis += 1
-            ck.fail("tie:hist-model-vs-nfcpy", "%s: model %r, implementation %r" % (h.kind, rep[-300:], h.line[-300:]),
-                    dict(h.replay(), request=h.request(var)[:3000], model=rep[:3000], impl=h.line[:3000]))
-    ck.tie("Hist model vs nfcpy: assignments through one tag object with faults (outcome + commands of every attempt, "
-           "fresh reader at the end)", cases=len(hs), disagreements=dis, exhaustive=False)
